@@ -7,7 +7,7 @@ class Prop:
     id = "C01"
     level = "exploration"
     engine = "VT"
-    quick_runs = 60000
+    quick_runs = 100000
     thorough_runs = 2000000
     rule = ("seeded operator pipelines (depth 1-4 over 1-4 cold/hot/sync sources, %d catalogue rows) with non-conforming sources "
             "(events after the terminal, double terminals), rogue sources that ignore their disposal, InjectedFault at the k-th call of "
